@@ -15,7 +15,7 @@ ls -d seeded/*/ | xargs -P "$JOBS" -I{} sh -c '
     /venv/bin/python - "$rep" "corpus/$prop/seed-$id.json" <<PY
 import json, sys
 rep = json.load(open(sys.argv[1]))
-if rep.get("kind") == "counterexample" and rep.get("case") is not None:
+if rep.get("kind") in ("counterexample", "no-failing-input-found") and rep.get("case") is not None:
     import os
     os.makedirs(os.path.dirname(sys.argv[2]), exist_ok=True)
     json.dump(rep["case"], open(sys.argv[2], "w"), sort_keys=True)
